@@ -45,6 +45,17 @@ pub struct PackageGraph {
     pub package_dirs: HashMap<String, PathBuf>,
 }
 
+/// The entry file is handed over as the caller spelled it (`main.gom`, `./main.gom`,
+/// an absolute path), while the directory listing spells it relative to the package
+/// directory. Compare the files, not the spellings; fall back to the spelling for a
+/// path that does not exist on disk (an unsaved editor buffer).
+fn same_file(a: &Path, b: &Path) -> bool {
+    match (a.canonicalize(), b.canonicalize()) {
+        (Ok(a), Ok(b)) => a == b,
+        _ => a == b,
+    }
+}
+
 fn read_gom_sources(dir: &Path) -> Result<Vec<PathBuf>, CompilationError> {
     let mut files = Vec::new();
     let entries = fs::read_dir(dir).map_err(|err| {
@@ -101,7 +112,7 @@ fn load_package(
     }
 
     for path in read_gom_sources(package_dir)? {
-        if entry_path.is_some_and(|entry| entry == path) {
+        if entry_path.is_some_and(|entry| same_file(entry, &path)) {
             continue;
         }
         let src = fs::read_to_string(&path)
